@@ -73,6 +73,10 @@ def _isinstance_names(P: Program, upd, test: ast.expr, action: str) -> set[str] 
     if isinstance(test, ast.Call) and call_name(test) == "isinstance" and len(test.args) == 2 and isinstance(test.args[0], ast.Name) and test.args[0].id == action:
         t = test.args[1]
         out = set()
+        if isinstance(t, ast.Name):
+            q0 = P.resolve_name(upd.module, t.id)
+            if q0 and q0 in P.constants and isinstance(P.constants[q0], ast.Tuple):
+                t = P.constants[q0]
         for x in (t.elts if isinstance(t, ast.Tuple) else [t]):
             q = P.resolve_expr_name(upd.module, x)
             if q in P.classes:
